@@ -368,12 +368,13 @@ fn main() {
     let mut idents: Vec<String> = vec![];
     for w in ["foo_bar", "FooBar", "fooBar", "URL", "HTTPServer", "address_line1", "AddressLine1", "x", "X", "__", "_a", "a_", "a__b", "r#type", "Étage", "étage_un", "straße", "ID2", "Id2X", "foo_1bar"] { idents.push(w.to_string()); }
     let mut cur: Vec<String> = vec![String::new()];
-    for _len in 1..=5 { let mut next = vec![]; for p in &cur { for c in &alpha { let mut q = p.clone(); q.push(*c); next.push(q); } } idents.extend(next.iter().cloned()); cur = next; }
+    let maxlen = if std::env::var("VERIF_TIER").map_or(false, |t| t == "thorough") { 6 } else { 5 };
+    for _len in 1..=maxlen { let mut next = vec![]; for p in &cur { for c in &alpha { let mut q = p.clone(); q.push(*c); next.push(q); } } idents.extend(next.iter().cloned()); cur = next; }
     for id in &idents { for rule in RULES { for pos in ["field", "variant"] {
         tried += 1;
         if let Some(m) = check(rule, pos, id) { println!("WITNESS {{\"input\": {{\"rule\": {:?}, \"position\": {:?}, \"ident\": {:?}}}, \"fails\": {:?}}}", rule, pos, id, m); std::process::exit(1); }
     } } }
-    println!("no failing input among {} (rule, position, identifier) triples: identifiers up to length 5 over 9 class representatives + dictionary", tried);
+    println!("no failing input among {} (rule, position, identifier) triples: identifiers up to length {} over 9 class representatives + dictionary", tried, maxlen);
 }
 """
 
